@@ -41,9 +41,10 @@ COMPONENTS = {
     "stub": ["VirtualLoop", "os/glob/random", "serial_asyncio", "gateway firmware, bus, other masters"],
 }
 PROBES = ["query-timeout", "query-answered", "query-resolved-by-next-frame", "twice-ok", "twice-failed-timeout",
-          "twice-failed-mismatch", "twice-failed-backward", "dt-context-used", "dt-context-expired",
-          "event-with-map", "unknown-frame", "own-send-interleaved", "subscriber-left", "subscriber-joined-late",
-          "burst", "explicit-no-frame", "ambiguous-gap-set-aside", "quirk-fired"]
+          "twice-failed-mismatch", "twice-failed-backward", "twice-failed-noframe", "dt-context-used",
+          "dt-context-expired", "event-decoded-through-map", "unknown-frame", "own-send-interleaved",
+          "subscriber-left", "subscriber-joined", "traffic-burst", "explicit-no-frame",
+          "ambiguous-gap-set-aside", "quirk-fired"]
 
 
 def _foreign_cmd(r, cats):
@@ -87,6 +88,8 @@ def gen_traffic(r, driver, n):
         elif k == "twice-once":
             s, c = _foreign_cmd(r, ["twice16", "twice24"])
             items.append({"t_us": t, "frames": [[s[0], s[1]]], "kind": k})
+            if not serial and r.random() < 0.4:
+                items[-1]["noframe"] = True
         elif k == "twice-interrupted":
             s, c = _foreign_cmd(r, ["twice16", "twice24"])
             s2, c2 = _foreign_cmd(r, ["plain16", "query16", "twice16"])
@@ -145,7 +148,7 @@ def gen_plan(seed, tier="quick"):
         if knobs.get("inst_map") and r.random() < 0.7:
             # make some events hit the map
             a, i, _t = r.choice(knobs["inst_map"])
-            v = (1 << 23) | (a << 17) | (1 << 15) | (i << 10) | r.getrandbits(10)
+            v = (a << 17) | (1 << 15) | (i << 10) | r.choice([0, 1, 2, 5, 9, 11, 12, 14, r.getrandbits(10)])
             plan["traffic"].append({"t_us": plan["traffic"][-1]["t_us"] + r.choice([20000, 400000]),
                                     "frames": [[24, v & ~(1 << 16)]], "kind": "event-mapped"})
     ncall = r.choice([0, 0, 1, 1, 2]) if driver != "hasseb" else r.choice([1, 2, 3])
@@ -338,7 +341,7 @@ def _hasseb_reference(rr):
         i += 1
     # time of emission is when the command completed; order is what matters
     # here, subscribers of the hasseb runs are permanent
-    return [(10 ** 17, c, r, f) for (_, c, r, f) in ems]
+    return [(10 ** 17, c, r, f, "immediate") for (_, c, r, f) in ems]
 
 
 def _serial_reference(rr, imap):
@@ -348,7 +351,7 @@ def _serial_reference(rr, imap):
         f = dali.frame.ForwardFrame(bits, value)
         c = dali.command.from_frame(f, devicetype=dt, dev_inst_map=imap)
         dt = c.param if isinstance(c, cmds.EnableDeviceType) else 0
-        ems.append((t, c, None, False))
+        ems.append((t, c, None, False, "immediate"))
     return ems
 
 
@@ -363,12 +366,17 @@ def run_plan(plan):
     for v in vs:
         add_violation(res, v)
     em = info.get("em", [])
+    for k, n in getattr(buswatch.reference, "stats", {}).items():
+        if plan["driver"] == "tridonic":
+            w.probe(k, n)
     for e in em:
         c = e[1]
-        if c.sendtwice:
-            w.probe("twice-failed" if e[3] else "twice-ok")
-        elif c.response is not None:
-            w.probe("query-answered" if (e[2] is not None and e[2].raw_value is not None) else "query-no-answer")
+        if len(e) > 4 and e[4] != "immediate":
+            w.probe(e[4])
+        if len(c.frame) == 24 and not c.frame[16] and type(c).__module__ != "dali.command" \
+                and "Unknown" not in type(c).__name__ and "Ambiguous" not in type(c).__name__ \
+                and plan["knobs"].get("inst_map"):
+            w.probe("event-decoded-through-map")
         if c.devicetype:
             w.probe("dt-context-used")
         if len(c.frame) == 24 and not c.frame[16]:
